@@ -284,51 +284,7 @@ Proof.
 Qed.
 
 (* ------------------------------------------------------------------ *)
-(* reduce_hashmap on a map that does not mix temperature bases *)
-
-Lemma rename_kelvin_cases b :
-  (b = s_celsius /\ rename b = s_kelvin) \/ (b = s_fahrenheit /\ rename b = s_kelvin) \/
-  (b <> s_celsius /\ b <> s_fahrenheit /\ rename b = b).
-Proof.
-  unfold rename. str_cases b s_celsius; [left; auto|].
-  str_cases b s_fahrenheit; [right; left; auto|]. right; right; auto.
-Qed.
-
-Lemma reduce_general_get : forall h acc adj acc' adj',
-  reduce_general h acc adj = Ok (acc', adj') ->
-  nodup_str (map fst (renamed h)) = true ->
-  (forall k, In k (map fst (renamed h)) -> hm_get acc k = None) ->
-  forall k, hm_get acc' k = match hm_get (renamed h) k with Some e => Some e | None => hm_get acc k end.
-Proof.
-  induction h as [|[b e] h IH]; intros acc adj acc' adj' H Nd Hfresh k.
-  - cbn in H. inversion H; subst. reflexivity.
-  - change (renamed ((b, e) :: h)) with ((rename b, e) :: renamed h) in *.
-    cbn [map fst nodup_str] in Nd. apply andb_true_iff in Nd. destruct Nd as [Nb Nd].
-    assert (~ In (rename b) (map fst (renamed h))) as Hnot.
-    { intro Hin. apply existsb_str_In in Hin. rewrite Hin in Nb. discriminate. }
-    assert (forall adj1, reduce_general h (hm_insert acc (rename b) e) adj1 = Ok (acc', adj') ->
-                         hm_get acc' k = match hm_get (renamed ((b, e) :: h)) k with
-                                         | Some e0 => Some e0 | None => hm_get acc k end) as Hcont.
-    { intros adj1 H1.
-      change (renamed ((b, e) :: h)) with ((rename b, e) :: renamed h).
-      rewrite (IH _ _ _ _ H1 Nd).
-      - cbn [hm_get].
-        str_cases (rename b) k.
-        + subst k. rewrite (proj2 (hm_get_none_notin _ _) Hnot). rewrite hm_get_insert, str_eqb_refl. reflexivity.
-        + destruct (hm_get (renamed h) k); [reflexivity|].
-          rewrite hm_get_insert. rewrite (proj2 (str_eqb_neq _ _) E). reflexivity.
-      - intros x Hx. rewrite hm_get_insert.
-        str_cases (rename b) x; [subst x; contradiction|].
-        apply Hfresh. cbn [map fst]. right. exact Hx. }
-    cbn [reduce_general] in H. unfold rename in Hcont at 1.
-    str_cases b s_celsius.
-    + cbn [orb] in Hcont. eapply Hcont. exact H.
-    + str_cases b s_fahrenheit.
-      * cbn [orb] in Hcont.
-        destruct (real_pow (Simple q59) (Simple e)) as [p| |]; cbn [bind] in H; try discriminate.
-        eapply Hcont. exact H.
-      * cbn [orb] in Hcont. eapply Hcont. exact H.
-Qed.
+(* hash maps keep their keys distinct *)
 
 Lemma hm_insert_keys h k v :
   map fst (hm_insert h k v) = if existsb (str_eqb k) (map fst h) then map fst h else map fst h ++ [k].
@@ -353,42 +309,109 @@ Proof.
   apply nodup_str_app_single; assumption.
 Qed.
 
+Lemma hm_remove_keys_sub h k y : In y (map fst (hm_remove h k)) -> In y (map fst h).
+Proof.
+  induction h as [|[a x] h IH]; cbn [hm_remove map fst In]; [tauto|].
+  destruct (str_eqb a k); cbn [map fst In]; [auto|]. intros [H|H]; auto.
+Qed.
+
+Lemma hm_remove_nodup h k : nodup_str (map fst h) = true -> nodup_str (map fst (hm_remove h k)) = true.
+Proof.
+  induction h as [|[a x] h IH]; cbn [hm_remove map fst nodup_str]; intro H; [reflexivity|].
+  apply andb_true_iff in H. destruct H as [H1 H2].
+  destruct (str_eqb a k); [apply IH; exact H2|].
+  cbn [map fst nodup_str]. rewrite (IH H2), andb_true_r.
+  destruct (existsb (str_eqb a) (map fst (hm_remove h k))) eqn:E; [|reflexivity]. exfalso.
+  apply existsb_str_In in E. apply hm_remove_keys_sub in E. apply existsb_str_In in E.
+  rewrite E in H1. discriminate.
+Qed.
+
+Lemma add_bases_nodup e bases : forall h,
+  nodup_str (map fst h) = true -> nodup_str (map fst (add_bases e bases h)) = true.
+Proof.
+  induction bases as [|[bu be] r IH]; intros h H; cbn [add_bases]; [exact H|].
+  apply IH. destruct (hm_get h bu).
+  - destruct (Qeq_bool _ 0); [apply hm_remove_nodup|apply hm_insert_nodup]; exact H.
+  - destruct (Qeq_bool _ 0); [exact H|apply hm_insert_nodup; exact H].
+Qed.
+
+Lemma to_hashmap_go_nodup us : forall st st',
+  to_hashmap_and_scale_go us st = Ok st' ->
+  nodup_str (map fst (fst (fst st))) = true -> nodup_str (map fst (fst (fst st'))) = true.
+Proof.
+  induction us as [|u us IH]; intros st st' H N; cbn [to_hashmap_and_scale_go] in H.
+  - inversion H; subst. exact N.
+  - destruct (add_to_hashmap u st) as [st1| |] eqn:A; cbn [bind] in H; try discriminate.
+    apply (IH _ _ H). unfold add_to_hashmap in A. destruct st as [[h sc] ex].
+    destruct (real_pow _ _); cbn [bind] in A; try discriminate.
+    inversion A; subst. cbn [fst] in *. apply add_bases_nodup. exact N.
+Qed.
+
+Lemma to_hashmap_nodup us h s : to_hashmap_and_scale us = Ok (h, s) -> nodup_str (map fst h) = true.
+Proof.
+  unfold to_hashmap_and_scale. intro H.
+  destruct (to_hashmap_and_scale_go us ([], Simple 1, true)) as [[[h0 s0] e0]| |] eqn:G; cbn [bind] in H; try discriminate.
+  inversion H; subst. apply (to_hashmap_go_nodup _ _ _ G). reflexivity.
+Qed.
+
+(* ------------------------------------------------------------------ *)
+(* reduce_hashmap: celsius and fahrenheit become kelvin, exponents add up *)
+
+Lemma rename_kelvin_cases b :
+  (b = s_celsius /\ rename b = s_kelvin) \/ (b = s_fahrenheit /\ rename b = s_kelvin) \/
+  (b <> s_celsius /\ b <> s_fahrenheit /\ rename b = b).
+Proof.
+  unfold rename. str_cases b s_celsius; [left; auto|].
+  str_cases b s_fahrenheit; [right; left; auto|]. right; right; auto.
+Qed.
+
+Lemma hm_merge_dimf acc k e k' :
+  dimf (hm_merge acc k e) k' == dimf acc k' + (if str_eqb k k' then e else 0).
+Proof.
+  unfold hm_merge.
+  destruct (Qeq_bool (match hm_get acc k with Some x => x + e | None => e end) 0) eqn:Z.
+  - rewrite dimf_remove. str_cases k k'; [|ring]. subst k'. apply Qeq_bool_eq in Z.
+    unfold dimf. destruct (hm_get acc k); rewrite Z; ring.
+  - rewrite dimf_insert. str_cases k k'.
+    + subst k'. unfold dimf. destruct (hm_get acc k); ring.
+    + rewrite dimf_remove. rewrite (proj2 (str_eqb_neq k k') E). ring.
+Qed.
+
+Lemma hm_merge_nodup acc k e : nodup_str (map fst acc) = true -> nodup_str (map fst (hm_merge acc k e)) = true.
+Proof.
+  intro H. unfold hm_merge. destruct (Qeq_bool _ 0); [|apply hm_insert_nodup]; apply hm_remove_nodup; exact H.
+Qed.
+
+Lemma reduce_general_sum : forall h acc adj acc' adj',
+  reduce_general h acc adj = Ok (acc', adj') ->
+  forall k, dimf acc' k == dimf acc k + bdim (renamed h) k.
+Proof.
+  induction h as [|[b e] h IH]; intros acc adj acc' adj' H k.
+  - cbn in H. inversion H; subst. cbn [renamed map bdim]. ring.
+  - change (renamed ((b, e) :: h)) with ((rename b, e) :: renamed h). cbn [bdim].
+    assert (forall adj1, reduce_general h (hm_merge acc (rename b) e) adj1 = Ok (acc', adj') ->
+                         dimf acc' k == dimf acc k + (if str_eqb (rename b) k then e + bdim (renamed h) k else bdim (renamed h) k)) as Hcont.
+    { intros adj1 H1. rewrite (IH _ _ _ _ H1 k), hm_merge_dimf. destruct (str_eqb (rename b) k); ring. }
+    cbn [reduce_general] in H. unfold rename in Hcont at 1.
+    str_cases b s_celsius.
+    + cbn [orb] in Hcont. eapply Hcont. exact H.
+    + str_cases b s_fahrenheit.
+      * cbn [orb] in Hcont.
+        destruct (real_pow (Simple q59) (Simple e)) as [p| |]; cbn [bind] in H; try discriminate.
+        eapply Hcont. exact H.
+      * cbn [orb] in Hcont. eapply Hcont. exact H.
+Qed.
+
 Lemma reduce_general_nodup : forall h acc adj acc' adj',
   reduce_general h acc adj = Ok (acc', adj') -> nodup_str (map fst acc) = true -> nodup_str (map fst acc') = true.
 Proof.
   induction h as [|[b e] h IH]; intros acc adj acc' adj' H Nd; cbn [reduce_general] in H.
   - inversion H; subst. exact Nd.
-  - destruct (str_eqb b s_celsius); [eapply IH; [exact H|apply hm_insert_nodup; exact Nd]|].
+  - destruct (str_eqb b s_celsius); [eapply IH; [exact H|apply hm_merge_nodup; exact Nd]|].
     destruct (str_eqb b s_fahrenheit).
     + destruct (real_pow (Simple q59) (Simple e)); cbn [bind] in H; try discriminate.
-      eapply IH; [exact H|apply hm_insert_nodup; exact Nd].
-    + eapply IH; [exact H|apply hm_insert_nodup; exact Nd].
-Qed.
-
-(* a map whose (renamed) keys are distinct, as a function: sums are single terms *)
-Lemma dimf_bdim_nodup h k : nodup_str (map fst h) = true -> dimf h k == bdim h k.
-Proof.
-  induction h as [|[a x] h IH]; cbn [map fst nodup_str]; intro H; [reflexivity|].
-  apply andb_true_iff in H. destruct H as [H1 H2].
-  unfold dimf. cbn [hm_get bdim]. str_cases a k.
-  - subst k. assert (bdim h a == 0) as Z.
-    { rewrite <- (IH H2). unfold dimf.
-      destruct (hm_get h a) eqn:G; [|reflexivity]. apply hm_get_some_In in G.
-      apply existsb_str_In in G. rewrite G in H1. discriminate. }
-    rewrite Z. ring.
-  - fold (dimf h k). apply IH. exact H2.
-Qed.
-
-Lemma renamed_nodup_keys h : nodup_str (map fst (renamed h)) = true -> nodup_str (map fst h) = true.
-Proof.
-  induction h as [|[a x] h IH]; cbn [renamed map fst nodup_str]; intro H; [reflexivity|].
-  apply andb_true_iff in H. destruct H as [H1 H2]. fold (renamed h) in *.
-  rewrite (IH H2), andb_true_r.
-  destruct (existsb (str_eqb a) (map fst h)) eqn:E; [|reflexivity]. exfalso.
-  apply existsb_str_In in E. apply in_map_iff in E. destruct E as ([a' x'] & Ea & Hin). cbn [fst] in Ea. subst a'.
-  assert (In (rename a) (map fst (renamed h))) as Hr.
-  { apply in_map_iff. exists (rename a, x'). split; [reflexivity|]. unfold renamed. apply in_map_iff. exists (a, x'). auto. }
-  apply existsb_str_In in Hr. rewrite Hr in H1. discriminate.
+      eapply IH; [exact H|apply hm_merge_nodup; exact Nd].
+    + eapply IH; [exact H|apply hm_merge_nodup; exact Nd].
 Qed.
 
 (* renaming then summing = the temperature identification applied to the map *)
@@ -436,11 +459,10 @@ Proof.
 Qed.
 
 Lemma reduce_hashmap_dims h h' adj off :
-  reduce_hashmap h = Ok (h', adj, off) -> unmixed_map h = true ->
+  reduce_hashmap h = Ok (h', adj, off) -> nodup_str (map fst h) = true ->
   nodup_str (map fst h') = true /\ forall k, dimf h' k == tdim (dimf h) k.
 Proof.
-  unfold reduce_hashmap, unmixed_map. intros H U.
-  pose proof (renamed_nodup_keys _ U) as Nk.
+  unfold reduce_hashmap. intros H Nk.
   assert (forall c, (c = s_celsius \/ c = s_fahrenheit) -> hm_single_one h c = true ->
                     forall k, dimf [(s_kelvin, 1)] k == tdim (dimf h) k) as Hsingle.
   { intros c Hc S k. unfold hm_single_one in S.
@@ -456,66 +478,59 @@ Proof.
   destruct (reduce_general h [] (mkex (Simple 1) true)) as [[acc' adj']| |] eqn:R; cbn [bind] in H; try discriminate.
   inversion H; subst. cbn [fst]. split.
   - eapply reduce_general_nodup; [exact R|reflexivity].
-  - intro k. rewrite <- (bdim_renamed_tdim _ k Nk), <- (dimf_bdim_nodup _ k U).
-    unfold dimf. rewrite (reduce_general_get _ _ _ _ _ R U (fun _ _ => eq_refl) k).
-    cbn [hm_get]. destruct (hm_get (renamed h) k); reflexivity.
+  - intro k. rewrite <- (bdim_renamed_tdim _ k Nk), (reduce_general_sum _ _ _ _ _ R k).
+    unfold dimf at 1. cbn [hm_get]. ring.
 Qed.
 
 (* ------------------------------------------------------------------ *)
 (* addition, conversion, pure-number functions *)
 
-Lemma unmixed_to_map us h s : to_hashmap_and_scale us = Ok (h, s) -> unmixed us = true -> unmixed_map h = true.
-Proof. unfold unmixed. intros H. rewrite H. auto. Qed.
-
 Lemma scale_factor_same_dim from into sf :
-  compute_scale_factor from into = Ok sf -> unmixed from = true -> unmixed into = true ->
-  forall k, pdim_units from k == pdim_units into k.
+  compute_scale_factor from into = Ok sf -> forall k, pdim_units from k == pdim_units into k.
 Proof.
-  intros H Uf Ui k.
+  intros H k.
   destruct (compute_scale_factor_parts _ _ _ H)
     as (ha & sa & hb & sb & ha' & adj_a & off_a & hb' & adj_b & off_b & H1 & H2 & H3 & H4 & H5 & _).
-  destruct (reduce_hashmap_dims _ _ _ _ H3 (unmixed_to_map _ _ _ H1 Uf)) as [Na Da].
-  destruct (reduce_hashmap_dims _ _ _ _ H4 (unmixed_to_map _ _ _ H2 Ui)) as [Nb Db].
+  destruct (reduce_hashmap_dims _ _ _ _ H3 (to_hashmap_nodup _ _ _ H1)) as [Na Da].
+  destruct (reduce_hashmap_dims _ _ _ _ H4 (to_hashmap_nodup _ _ _ H2)) as [Nb Db].
   pose proof (compare_hashmaps_sound _ _ Na H5 k) as E.
   rewrite Da, Db in E. unfold pdim_units.
   rewrite <- (tdim_ext _ _ (fun x => to_hashmap_dimf _ _ _ x H1)).
   rewrite <- (tdim_ext _ _ (fun x => to_hashmap_dimf _ _ _ x H2)). exact E.
 Qed.
 
-(* adding needs equal dimensions, or a zero on the right (then it is a no-op) *)
+(* adding needs equal dimensions, or a zero on the right (then the magnitude
+   and the units are those of the left operand) *)
 Theorem add_needs_same_dim a b v :
   v_add a b = Ok v ->
-  (v_is_zero b = true /\ v = a) \/
-  (v_units v = v_units a /\
-   (unmixed (v_units a) = true -> unmixed (v_units b) = true -> forall k, vdim a k == vdim b k)).
+  v_units v = v_units a /\
+  ((v_is_zero b = true /\ v_val v = v_val a) \/ (forall k, vdim a k == vdim b k)).
 Proof.
   unfold v_add. destruct (v_is_zero b) eqn:Z.
-  - intro H; inversion H; auto.
+  - intro H; inversion H; subst. cbn [v_units v_val]. auto.
   - destruct (compute_scale_factor (v_units b) (v_units a)) as [sf| |] eqn:S; cbn [bind]; try discriminate.
     destruct (er_div _ _); cbn [bind]; try discriminate.
-    intro H; inversion H; subst. right. split; [reflexivity|].
-    intros Ua Ub k. symmetry. apply (scale_factor_same_dim _ _ _ S Ub Ua).
+    intro H; inversion H; subst. split; [reflexivity|]. right.
+    intro k. symmetry. apply (scale_factor_same_dim _ _ _ S).
 Qed.
 
 Theorem add_incompatible a b :
-  v_is_zero b = false -> unmixed (v_units a) = true -> unmixed (v_units b) = true ->
-  (exists k, ~ vdim a k == vdim b k) -> forall v, v_add a b <> Ok v.
+  v_is_zero b = false -> (exists k, ~ vdim a k == vdim b k) -> forall v, v_add a b <> Ok v.
 Proof.
-  intros Z Ua Ub (k & Hk) v H. destruct (add_needs_same_dim _ _ _ H) as [[Z' _]|[_ E]].
+  intros Z (k & Hk) v H. destruct (add_needs_same_dim _ _ _ H) as [_ [[Z' _]|E]].
   - rewrite Z in Z'. discriminate.
-  - apply Hk. apply E; assumption.
+  - apply Hk. apply E.
 Qed.
 
 Theorem convert_needs_same_dim a b v :
   v_convert_to a b = Ok v ->
-  v_units v = v_units b /\
-  (unmixed (v_units a) = true -> unmixed (v_units b) = true -> forall k, vdim a k == vdim b k).
+  v_units v = v_units b /\ forall k, vdim a k == vdim b k.
 Proof.
   unfold v_convert_to. destruct (negb _); [discriminate|].
   destruct (compute_scale_factor (v_units a) (v_units b)) as [sf| |] eqn:S; cbn [bind]; try discriminate.
   destruct (er_div _ _); cbn [bind]; try discriminate.
   intro H; inversion H; subst. split; [reflexivity|].
-  intros Ua Ub k. apply (scale_factor_same_dim _ _ _ S Ua Ub).
+  intro k. apply (scale_factor_same_dim _ _ _ S).
 Qed.
 
 Lemma vdim_nil k : tdim (udim []) k == 0.
@@ -523,32 +538,13 @@ Proof. unfold tdim. cbn [udim]. destruct (str_eqb k s_kelvin); [ring|]. destruct
 
 (* functions that need a pure number reject a dimensioned argument *)
 Theorem unitless_required a r :
-  v_require_unitless a = Ok r -> unmixed (v_units a) = true -> forall k, vdim a k == 0.
+  v_require_unitless a = Ok r -> forall k, vdim a k == 0.
 Proof.
   unfold v_require_unitless, v_into_unitless.
   destruct (v_convert_to a v_unitless_one) as [c| |] eqn:C; cbn [bind]; try discriminate.
-  intros _ Ua k. destruct (convert_needs_same_dim _ _ _ C) as [_ E].
-  rewrite (E Ua eq_refl k). unfold vdim, pdim_units. cbn [v_units v_unitless_one]. apply vdim_nil.
+  intros _ k. destruct (convert_needs_same_dim _ _ _ C) as [_ E].
+  rewrite (E k). unfold vdim, pdim_units. cbn [v_units v_unitless_one]. apply vdim_nil.
 Qed.
-
-(* ------------------------------------------------------------------ *)
-(* the known defect: with celsius (or fahrenheit) and kelvin in one hash map
-   reduce_hashmap overwrites instead of adding, and a sum of different
-   dimensions is accepted.  Witness: (1 celsius kelvin) + (1 kelvin). *)
-
-Definition w_ck : value :=
-  mkval (Simple 1) (v_units (new_base_unit s_celsius s_celsius) ++ v_units (new_base_unit s_kelvin s_kelvin)) true true.
-Definition w_k : value := new_base_unit s_kelvin s_kelvin.
-
-Theorem add_same_dim_refuted :
-  exists a b v, v_add a b = Ok v /\ v_is_zero b = false /\ ~ (forall k, vdim a k == vdim b k).
-Proof.
-  exists w_ck, w_k. eexists. split; [vm_compute; reflexivity|]. split; [reflexivity|].
-  intro H. specialize (H s_kelvin). vm_compute in H. discriminate.
-Qed.
-
-Example witness_is_mixed : unmixed (v_units w_ck) = false.
-Proof. vm_compute. reflexivity. Qed.
 
 (* ------------------------------------------------------------------ *)
 (* whole expressions *)
@@ -579,78 +575,71 @@ Section Sound.
   (* a successful evaluation is a physically well-dimensioned expression, and
      the result has the dimension physics assigns *)
   Theorem meval_sound : forall e v,
-    meval resolve e = Ok v -> unmixed_tree resolve e = true ->
+    meval resolve e = Ok v ->
     exists f, HasDim resolve e f /\ forall k, vdim v k == f k.
   Proof.
     induction e as [q|n|a IHa b IHb|a IHa b IHb|a IHa q|a IHa|a IHa b IHb|a IHa b IHb|a IHa b IHb|a IHa];
-      intros v H U; cbn [meval unmixed_tree] in H, U.
+      intros v H; cbn [meval] in H.
     - inversion H; subst. exists (fun _ => 0). split; [constructor|]. intro k. apply vdim_nil.
     - destruct (resolve n) as [w| | |] eqn:R; try discriminate. inversion H; subst.
       exists (vdim v). split; [constructor; exact R|reflexivity].
     - destruct (meval resolve a) as [x| |] eqn:Ea; cbn [bind] in H; try discriminate.
       destruct (meval resolve b) as [y| |] eqn:Eb; cbn [bind] in H; try discriminate.
-      inversion H; subst. apply andb_true_iff in U. destruct U as [Ua Ub].
-      destruct (IHa _ eq_refl Ua) as (f & Hf & Df). destruct (IHb _ eq_refl Ub) as (g & Hg & Dg).
+      inversion H; subst.
+      destruct (IHa _ eq_refl) as (f & Hf & Df). destruct (IHb _ eq_refl) as (g & Hg & Dg).
       exists (fun k => f k + g k). split; [constructor; assumption|].
       intro k. rewrite mul_dim, Df, Dg. reflexivity.
     - destruct (meval resolve a) as [x| |] eqn:Ea; cbn [bind] in H; try discriminate.
       destruct (meval resolve b) as [y| |] eqn:Eb; cbn [bind] in H; try discriminate.
-      apply andb_true_iff in U. destruct U as [Ua Ub].
-      destruct (IHa _ eq_refl Ua) as (f & Hf & Df). destruct (IHb _ eq_refl Ub) as (g & Hg & Dg).
+      destruct (IHa _ eq_refl) as (f & Hf & Df). destruct (IHb _ eq_refl) as (g & Hg & Dg).
       exists (fun k => f k - g k). split; [constructor; assumption|].
       intro k. rewrite (div_dim _ _ _ k H), Df, Dg. reflexivity.
     - destruct (meval resolve a) as [x| |] eqn:Ea; cbn [bind] in H; try discriminate.
-      destruct (IHa _ eq_refl U) as (f & Hf & Df).
+      destruct (IHa _ eq_refl) as (f & Hf & Df).
       exists (fun k => q * f k). split; [constructor; assumption|].
       intro k. rewrite (pow_dim _ _ _ k H), Df. reflexivity.
     - destruct (meval resolve a) as [x| |] eqn:Ea; cbn [bind] in H; try discriminate.
-      inversion H; subst. destruct (IHa _ eq_refl U) as (f & Hf & Df).
+      inversion H; subst. destruct (IHa _ eq_refl) as (f & Hf & Df).
       exists f. split; [constructor; assumption|]. intro k. rewrite neg_dim. apply Df.
     - (* add *)
       destruct (meval resolve a) as [x| |] eqn:Ea; cbn [bind] in H; try discriminate.
       destruct (meval resolve b) as [y| |] eqn:Eb; cbn [bind] in H; try discriminate.
-      apply andb_true_iff in U. destruct U as [U Um]. apply andb_true_iff in U. destruct U as [Ua Ub].
-      apply andb_true_iff in Um. destruct Um as [Ux Uy].
-      destruct (IHa _ eq_refl Ua) as (f & Hf & Df). destruct (IHb _ eq_refl Ub) as (g & Hg & Dg).
-      exists f. destruct (add_needs_same_dim _ _ _ H) as [[Z Ev]|[Eu E]].
-      + subst v. split; [eapply HDAddZero; eauto|exact Df].
+      destruct (IHa _ eq_refl) as (f & Hf & Df). destruct (IHb _ eq_refl) as (g & Hg & Dg).
+      exists f. destruct (add_needs_same_dim _ _ _ H) as [Eu [[Z _]|E]].
+      + split; [eapply HDAddZero; eauto|]. intro k. unfold vdim. rewrite Eu. apply Df.
       + split.
-        * eapply HDAdd; eauto. apply (dim_eq_trans3 _ _ x y Df Dg). apply E; assumption.
+        * eapply HDAdd; eauto. apply (dim_eq_trans3 _ _ x y Df Dg). exact E.
         * intro k. unfold vdim. rewrite Eu. apply Df.
     - (* sub *)
       destruct (meval resolve a) as [x| |] eqn:Ea; cbn [bind] in H; try discriminate.
       destruct (meval resolve b) as [y| |] eqn:Eb; cbn [bind] in H; try discriminate.
-      apply andb_true_iff in U. destruct U as [U Um]. apply andb_true_iff in U. destruct U as [Ua Ub].
-      apply andb_true_iff in Um. destruct Um as [Ux Uy].
-      destruct (IHa _ eq_refl Ua) as (f & Hf & Df). destruct (IHb _ eq_refl Ub) as (g & Hg & Dg).
-      exists f. unfold v_sub in H. destruct (add_needs_same_dim _ _ _ H) as [[Z Ev]|[Eu E]].
-      + subst v. rewrite v_is_zero_neg in Z. split; [eapply HDSubZero; eauto|exact Df].
+      destruct (IHa _ eq_refl) as (f & Hf & Df). destruct (IHb _ eq_refl) as (g & Hg & Dg).
+      exists f. unfold v_sub in H. destruct (add_needs_same_dim _ _ _ H) as [Eu [[Z _]|E]].
+      + rewrite v_is_zero_neg in Z. split; [eapply HDSubZero; eauto|]. intro k. unfold vdim. rewrite Eu. apply Df.
       + split.
         * eapply HDSub; eauto. apply (dim_eq_trans3 _ _ x y Df Dg).
-          intro k. rewrite (E Ux Uy k). apply neg_dim.
+          intro k. rewrite (E k). apply neg_dim.
         * intro k. unfold vdim. rewrite Eu. apply Df.
     - (* conversion *)
       destruct (meval resolve a) as [x| |] eqn:Ea; cbn [bind] in H; try discriminate.
       destruct (meval resolve b) as [y| |] eqn:Eb; cbn [bind] in H; try discriminate.
-      apply andb_true_iff in U. destruct U as [U Um]. apply andb_true_iff in U. destruct U as [Ua Ub].
-      apply andb_true_iff in Um. destruct Um as [Ux Uy].
-      destruct (IHa _ eq_refl Ua) as (f & Hf & Df). destruct (IHb _ eq_refl Ub) as (g & Hg & Dg).
+      destruct (IHa _ eq_refl) as (f & Hf & Df). destruct (IHb _ eq_refl) as (g & Hg & Dg).
       destruct (convert_needs_same_dim _ _ _ H) as [Eu E].
       exists g. split.
-      + eapply HDConv; eauto. apply (dim_eq_trans3 _ _ x y Df Dg). apply E; assumption.
+      + eapply HDConv; eauto. apply (dim_eq_trans3 _ _ x y Df Dg). exact E.
       + intro k. unfold vdim. rewrite Eu. apply Dg.
     - (* a function of a pure number *)
       destruct (meval resolve a) as [x| |] eqn:Ea; cbn [bind] in H; try discriminate.
       destruct (v_require_unitless x) as [r| |] eqn:R; cbn [bind] in H; try discriminate.
-      inversion H; subst. apply andb_true_iff in U. destruct U as [Ua Ux].
-      destruct (IHa _ eq_refl Ua) as (f & Hf & Df).
+      inversion H; subst.
+      destruct (IHa _ eq_refl) as (f & Hf & Df).
       exists (fun _ => 0). split.
-      + constructor 12 with (f := f); [exact Hf|]. intro k. rewrite <- Df. apply (unitless_required _ _ R Ux).
+      + constructor 12 with (f := f); [exact Hf|]. intro k. rewrite <- Df. apply (unitless_required _ _ R).
       + intro k. unfold vdim, pdim_units. cbn [v_units]. apply vdim_nil.
   Qed.
 
   (* hence: an expression that physics rejects never evaluates to a number *)
   Corollary ill_dimensioned_is_error e :
-    unmixed_tree resolve e = true -> (forall f, ~ HasDim resolve e f) -> forall v, meval resolve e <> Ok v.
-  Proof. intros U N v H. destruct (meval_sound _ _ H U) as (f & Hf & _). exact (N f Hf). Qed.
+    (forall f, ~ HasDim resolve e f) -> forall v, meval resolve e <> Ok v.
+  Proof. intros N v H. destruct (meval_sound _ _ H) as (f & Hf & _). exact (N f Hf). Qed.
 End Sound.
